@@ -65,36 +65,35 @@ Theorem c08_unmarked_unchanged :
   get_entry d' k = get_entry d k.
 Proof. exact marks_complete_strings. Qed.
 
-(** The same for the consumer-group commands (after ed8ba04, formerly finding
-    stream-group-writes-unmarked): XGROUP CREATE / DESTROY / CREATECONSUMER / DELCONSUMER /
-    SETID, XACK, XCLAIM, XPENDING, XINFO and XREADGROUP mark every key whose stored entry
-    (stream, groups, pending entries, cursor, consumers, deadline, existence) they change.
-    For XREADGROUP the statement covers the keys it does not read with an explicit ID
-    ([xreadgroup_plan] lists the resolved reads, [sid_max] standing for ">"): a history
-    read that reports nothing still registers the reader - [c08_group_reread_unmarked_refuted]. *)
+(** The same for the consumer-group commands (after ed8ba04 and cc8be72, formerly findings
+    stream-group-writes-unmarked and group-reread-unmarked): XGROUP CREATE / DESTROY /
+    CREATECONSUMER / DELCONSUMER / SETID, XACK, XCLAIM, XPENDING, XINFO and XREADGROUP - history
+    reads included - mark every key whose stored entry (stream, groups, pending entries, delivery
+    counters, cursor, consumers, deadline, existence) they change. *)
 Theorem c08_unmarked_unchanged_groups :
   forall now d name parts r d' k,
   (name = bs "XGROUP" /\ h_xgroup now d parts = (r, d')) \/ (name = bs "XACK" /\ h_xack now d parts = (r, d')) \/
   (name = bs "XCLAIM" /\ h_xclaim now d parts = (r, d')) \/ (name = bs "XPENDING" /\ h_xpending now d parts = (r, d')) \/
-  (name = bs "XINFO" /\ h_xinfo now d parts = (r, d')) \/
-  (name = bs "XREADGROUP" /\ h_xreadgroup now d parts = (r, d') /\
-   forall a, In (k, a) (xreadgroup_plan now d parts) -> a = sid_max) ->
-  bmem k (marks_streams d d' name parts r) = false ->
+  (name = bs "XINFO" /\ h_xinfo now d parts = (r, d')) \/ (name = bs "XREADGROUP" /\ h_xreadgroup now d parts = (r, d')) ->
+  bmem k (marks_streams now d d' name parts r) = false ->
   get_entry d' k = get_entry d k.
 Proof. exact marks_complete_groups. Qed.
 
-(** finding group-reread-unmarked (open): XREADGROUP with an explicit ID by a consumer that owns
-    nothing reports no entry, marks nothing, and yet the stored value changed (the reader is
-    now a consumer of the group) *)
-Example c08_group_reread_unmarked_refuted :
+(** formerly finding group-reread-unmarked (fixed by cc8be72): a history read that registers the
+    reader marks the key although it reports nothing; the same read again changes nothing and
+    marks nothing *)
+Example c08_group_reread_witness :
   let d := snd (run_cmds 0 empty_db [cmd ["XADD"; "wk"; "5-0"; "f"; "v"]%string; cmd ["XGROUP"; "CREATE"; "wk"; "g"; "0"]%string]) in
   let parts := cmd ["XREADGROUP"; "GROUP"; "g"; "c9"; "STREAMS"; "wk"; "0"]%string in
   match exec_streams 0 d (bs "XREADGROUP") parts None with
-  | Some (r, d') => r = FArray [] /\ marks_streams d d' (bs "XREADGROUP") parts r = [] /\
-                    get_entry d' (bs "wk") <> get_entry d (bs "wk")
+  | Some (r, d') => r = FArray [] /\ marks_streams 0 d d' (bs "XREADGROUP") parts r = [bs "wk"] /\
+      match exec_streams 0 d' (bs "XREADGROUP") parts None with
+      | Some (r2, d2) => r2 = FArray [] /\ marks_streams 0 d' d2 (bs "XREADGROUP") parts r2 = [] /\ d2 = d'
+      | None => False
+      end
   | None => False
   end.
-Proof. vm_compute. split; [reflexivity|]. split; [reflexivity|]. intros H. discriminate H. Qed.
+Proof. vm_compute. repeat split; reflexivity. Qed.
 
 (** Every code path that can change a key's value or deadline bumps the counter:
     obligations over the census of engine.rs regenerated on every run - each mutating
